@@ -120,6 +120,8 @@ PRun(p, c, v, k) ==
                                        THEN [p.segs EXCEPT ![Len(p.segs)] = <<@[1], @[2] + t>>]
                                        ELSE Append(p.segs, <<p.pos, t>>)]
          IN PRun(q, c, v, k - t)
+  ELSE IF p.ph \in {"EXT1", "EXT2"} /\ c \in {"H", "TOK"} THEN    \* long chunk-ext name / value: only pos moves
+         PRun([p EXCEPT !.pos = p.pos + k], c, v, 0)
   ELSE PRun(PStep1(p, c, v), c, v, k - 1)
 
 RECURSIVE PFold(_, _)
@@ -187,6 +189,8 @@ MRun(m, c, v, k) ==
                                        THEN [m.segs EXCEPT ![Len(m.segs)] = <<@[1], @[2] + t>>]
                                        ELSE Append(m.segs, <<m.pos, t>>)]
          IN MRun(q, c, v, k - t)
+  ELSE IF m.ph = "LINE" /\ m.semi /\ c # "LF" THEN                   \* inside a chunk-ext: ignored up to LF
+         MRun([m EXCEPT !.pos = m.pos + k], c, v, 0)
   ELSE MRun(MStep1(m, c, v), c, v, k - 1)
 
 RECURSIVE MFold(_, _)
